@@ -9,7 +9,7 @@ PY = 'PYTHONHASHSEED=0 /venv/bin/python -m checks.run'
 
 # id: (engine, category, technique, level text, level note, design ref)
 E1_TECH = 'stateless deviation-bounded schedule exploration of the real ZMQSender/ZMQReceiver/MQ/Filter code over a simulated libzmq and virtual clock'
-E1_NOTE = 'libzmq and the clock are modelled (mc/simzmq.py, mc/sched.py; cross-checked against real pyzmq by conformance/, 24 cases, run by setup_cmd); exhaustive only up to the stated deviation bound, frame count, scenario family and horizon.'
+E1_NOTE = 'libzmq and the clock are modelled (mc/simzmq.py, mc/sched.py; cross-checked against real pyzmq by conformance/, 28 cases incl. reconnect timing, run by setup_cmd); exhaustive only up to the stated deviation bound, frame count, scenario family and horizon.'
 
 T = {
  'C01': ('E1-simnet', 'model_checking', E1_TECH,
@@ -22,19 +22,19 @@ T = {
          'All timely schedules (message delay < 100 ms, runnable filter runs before the clock advances) with <= d deviations of a family of chains, tees, rejoins and joins with every process() behaviour; per-filter process() input list must equal a functional reference model, first frame included.',
          E1_NOTE, '4 C03'),
  'C04': ('E1-simnet', 'model_checking', E1_TECH,
-         'Every stall position x stall start index x stall length x speed combination, all timely schedules with <= d deviations in the first 1100 ms; counts publishes of every upstream producer during the stall (<= 9, none later than 700 ms into it).',
+         'Every stall position (sole consumer, one of two, behind a relay, mixed with an ephemeral source, same-id replicas, worker on a balanced branch shared with a synchronized logger) x stall start index x stall length x speed combination, two consecutive pauses, slow-start producers; all timely schedules with <= d deviations in the first 1100-2200 ms; for every stall of the run counts the publishes of every upstream producer on the endpoint leading to the stalled consumer (<= 9, none later than 700 ms into it).',
          E1_NOTE, '4 C04'),
  'C05': ('E1-simnet', 'model_checking', E1_TECH,
-         'Every mix of ? and ?? listeners (fast, slow, stalled, late, killed at every step) on a publisher with a synchronized sink: synchronized stream equals the listener-free reference model on every schedule with <= d deviations, identical virtual delivery times on the default schedule, no request traffic from ?? listeners, ephemeral sets complete and ordered.',
+         'Every mix of ? and ?? listeners (fast, slow, stalled, late, killed at every step) on a publisher with a synchronized sink: synchronized stream equals the listener-free reference model on every schedule with <= d deviations, identical virtual delivery times on the default schedule, no request traffic from ?? listeners, ephemeral sets complete and ordered; consumers mixing ephemeral and synchronized sources (two deviations for multi-topic ephemeral sources), ephemeral branches with synchronized consumers of their own, watchers that register late on a publisher that is then asked to jump ahead.',
          E1_NOTE, '4 C05'),
  'C06': ('E1-simnet', 'model_checking', E1_TECH,
-         'One hard kill of every filter of chain/tee/rejoin pipelines inserted at every scheduling point of the reference run with restart delays 0 / 300 ms / CONN_TIMEOUT+200 ms / never: every live synchronized sink must process a new frame within CONN_TIMEOUT + 5 poll intervals and keep doing so; order oracle throughout.',
+         'One hard kill (requests in flight to the victim delivered to the next incarnation or lost with it) or graceful stop of every filter of chain / tee / rejoin / balanced pipelines, with and without ? listeners and required outputs, inserted at every scheduling point of the reference run (quick: every point where the victim is about to step) with restart delays 0 / 300 ms / CONN_TIMEOUT+200 ms / never, late kills with one further deviation, consumers silent for longer than the time-out, and fault-free runs of skipping / slow rejoins with one deviation: every live consumer must process a new frame within CONN_TIMEOUT + 5 poll intervals and keep doing so, a publisher waits for a missing required output; order and set-integrity oracles throughout.',
          E1_NOTE, '4 C06'),
  'C08': ('E1-simnet', 'model_checking', E1_TECH,
-         'Pipelines (chain-3, tee, rejoin) x position of the ending filter x ending (exit()/exception in init, setup, k-th process, send, recv, shutdown; stop event; exit_after as seconds, m:s string, @datetime) x propagate/obey policy pairs: all timely schedules with <= d deviations; per filter shutdown-once-iff-setup, sockets closed, stop event set, run() returns/raises; pipeline-wide the set of terminating filters equals the closure of the announcement over the connection graph.',
+         'Pipelines (chain-3, tee, rejoin) x position of the ending filter x ending (exit()/exception in init, setup, k-th process, send, recv, shutdown; stop event; exit_after as seconds, m:s string, @datetime with and without offset under LOG_UTC on/off; failures while the filter object is constructed) x propagate/obey policy pairs: all timely schedules with <= d deviations; per filter shutdown-once-iff-setup, sockets closed, stop event set, run() returns/raises; pipeline-wide the set of terminating filters equals the closure of the announcement over the connection graph.',
          E1_NOTE, '4 C08'),
  'C18': ('E1-simnet', 'model_checking', 'stateless preemption-bounded exploration of the real Filter.run main thread and the real OpenFilterLineage heartbeat thread under a controlled scheduler (scheduler-aware threading in lineage.py), capturing every emitted event',
-         'Every way a run can end (exit()/exception in init, setup, k-th process, shutdown; stop event; exit_after) x run length 0.4 / 1 / 2.5 heartbeat intervals: all interleavings of the two threads with <= 2 (quick) / 4 (thorough) preemptions at Event/Lock/emit/poll/sleep operations; history must be START RUNNING* (COMPLETE|ABORT), one run id, COMPLETE iff run() returned normally.',
+         'Every way a run can end (exit()/exception in init, setup, k-th process, shutdown; stop event; exit_after) x run length 0.4 / 0.7 / 1 / 1.8 / 2.5 heartbeat intervals, slow lineage backends and backends that refuse an event kind: all interleavings of the two threads with <= 2 (quick) / 4 (thorough) preemptions at Event/Lock/emit/poll/sleep operations; history must be START RUNNING* (COMPLETE|ABORT), one run id, COMPLETE iff run() returned normally.',
          'The OpenLineage client is a capturing fake; lineage.threading is replaced by mc/simthread.py; memory-level races between the two threads are explored at synchronisation operations and emit calls only.', '4 C18'),
  'C07': ('E1-simnet', 'model_checking', E1_TECH,
          'Splitter with balanced outputs over 2-4 branches, workers of all speed combinations, balanced-sources joiner: all schedules with <= d deviations under arbitrary delays; each id on exactly one branch, rejoined stream duplicate-free, strictly increasing, one id per set.',
@@ -49,7 +49,7 @@ T.update({
          'Cross product of frame kinds (no image / GRAY / BGR / RGB x 7 sizes x 7 memory layouts incl. jpg-backed), data shapes, outputs_jpg settings and transports, every single kind under normal and hidden topics, all ordered pairs of a reduced kind set, 3-4 topic sets; enumerated completely.',
          E3_NOTE, '4 C09'),
  'C10': ('E3-enum', 'model_checking', 'explicit-state breadth-first search over operation sequences on the real Frame class with a reference model of pixel provenance, deduplicated on a canonical state abstraction',
-         'All sequences to depth 3 (quick) / 4 (thorough) over 21 operations (constructors, copy, rw/ro/rgb/bgr/gray/rw_*/ro_*, .image, .jpg, pickle, poke through any live writable array) from 12 start states; after every step every accessor result is compared with the reference conversion of the source\'s current pixels, aliasing and writability promises and the jpg-cache invariant are checked.',
+         'All sequences to depth 3 (quick) / 4 (thorough) over 24 operations (constructors incl. from_jpg on a memoryview of a caller buffer that is overwritten later, copy, rw/ro/rgb/bgr/gray/rw_*/ro_*, .image, .jpg, pickle, poke through any live writable array) from 12 start states; after every step every accessor result is compared with the reference conversion of the source\'s current pixels, aliasing and writability promises and the jpg-cache invariant are checked.',
          E3_NOTE, '4 C10'),
  'C11': ('E3-enum', 'exploration', 'bounded-exhaustive enumeration of valid configurations per filter class through the real normalize_config / parse_topics / parse_options',
          'For the base Filter and each built-in filter class: configs generated from the documented grammar (1-2 / 1-4 sources or outputs, every topic and option production, whitespace and credential variants); N(N(c)) == N(c), N(text) == N(struct), parse(render(x)) == x, enumerated completely.',
@@ -117,7 +117,7 @@ def main():
             {'name': 'E2-statesearch', 'path': 'mc/e2.py',
              'serves_properties': ['C01', 'C02', 'C04', 'C05', 'C07'],
              'kind_free_text': 'explicit-state BFS over real ZMQSender/ZMQReceiver objects driven with non-blocking calls'},
-            {'name': 'E3-enum', 'path': 'mc/e3.py',
+            {'name': 'E3-enum', 'path': 'checks/c09.py ... checks/c17.py (one module per property, helpers checks/c12_user.py, checks/c13_rl.py)',
              'serves_properties': ['C09', 'C10', 'C11', 'C12', 'C13', 'C14', 'C15', 'C16', 'C17'],
              'kind_free_text': 'operation-sequence BFS, bounded-exhaustive input enumeration and crash-point enumeration against reference models'},
         ],
